@@ -257,6 +257,8 @@ func checkC14(c *Ctx, r *Result, tier string) {
 			}
 		}
 
+		c14Loop(c, r, fn, rtIface)
+
 		// R14b: slice / index obligations of this function and of the helpers it calls in package interpreter
 		fns := []*ssa.Function{fn}
 		allInstrs(fn, func(in ssa.Instruction) {
@@ -282,4 +284,314 @@ func checkC14(c *Ctx, r *Result, tier string) {
 			}
 		}
 	}
+}
+
+// ---- R14d / R14e: the scan loop advances; iterations are independent ----------------------------
+
+func isLoopHeaderPhi(p *ssa.Phi) bool {
+	b := p.Block()
+	for _, pr := range b.Preds {
+		if b.Dominates(pr) {
+			return true
+		}
+	}
+	return false
+}
+
+var markerSearch = map[string]bool{"strings.Index": true, "strings.LastIndex": true, "strings.Split": true, "strings.SplitN": true,
+	"strings.Cut": true, "strings.IndexByte": true, "strings.SplitAfterN": true}
+
+// strictSuffix: v is a proper suffix of the text P held at the loop header (0 unknown, 1 equal, 2 strictly shorter).
+func suffixRank(v, P ssa.Value, depth int) int {
+	if depth > 12 {
+		return 0
+	}
+	v = stripConv(v)
+	if v == P {
+		return 1
+	}
+	switch x := v.(type) {
+	case *ssa.Phi:
+		if isLoopHeaderPhi(x) {
+			return 0
+		}
+		rank := 2
+		for _, e := range x.Edges {
+			k := suffixRank(e, P, depth+1)
+			if k < rank {
+				rank = k
+			}
+		}
+		return rank
+	case *ssa.UnOp:
+		if x.Op != token.MUL {
+			return 0
+		}
+		if ia, ok := x.X.(*ssa.IndexAddr); ok {
+			// element 1 of strings.SplitN(base, sep, n≥2) / strings.Split with a non-empty constant separator
+			idx, isConst := constInt(ia.Index)
+			call, isCall := stripConv(ia.X).(*ssa.Call)
+			if isConst && idx == 1 && isCall {
+				n := callName(call)
+				if (n == "strings.SplitN" || n == "strings.Split") && len(call.Call.Args) >= 2 {
+					if sep, ok := constString(call.Call.Args[1]); ok && sep != "" {
+						if n == "strings.SplitN" {
+							if cnt, ok := constInt(call.Call.Args[2]); !ok || cnt != 2 {
+								return 0
+							}
+						} else {
+							return 0 // element 1 of an unbounded split is not a suffix
+						}
+						if suffixRank(call.Call.Args[0], P, depth+1) >= 1 {
+							return 2
+						}
+					}
+				}
+			}
+		}
+		if a, ok := x.X.(*ssa.Alloc); ok {
+			rank := 2
+			srcs := cellSources(a)
+			if len(srcs) == 0 {
+				return 0
+			}
+			for _, s := range srcs {
+				if k := suffixRank(s, P, depth+1); k < rank {
+					rank = k
+				}
+			}
+			return rank
+		}
+	case *ssa.Extract:
+		if call, ok := x.Tuple.(*ssa.Call); ok && callName(call) == "strings.Cut" && x.Index == 1 {
+			if sep, ok := constString(call.Call.Args[1]); ok && sep != "" && suffixRank(call.Call.Args[0], P, depth+1) >= 1 {
+				// after is strictly shorter when found; when not found it is "" (also a strict suffix unless base is empty)
+				return 2
+			}
+		}
+	case *ssa.Slice:
+		if x.High != nil || x.Low == nil {
+			return 0
+		}
+		if suffixRank(x.X, P, depth+1) < 1 {
+			return 0
+		}
+		// low = strings.Index(..) + k with k ≥ 2 (Index ≥ -1), or a positive constant
+		if k, ok := constInt(x.Low); ok && k > 0 {
+			return 2
+		}
+		if bo, ok := x.Low.(*ssa.BinOp); ok && bo.Op == token.ADD {
+			for _, pair := range [][2]ssa.Value{{bo.X, bo.Y}, {bo.Y, bo.X}} {
+				if k, ok := constInt(pair[1]); ok && k >= 2 {
+					if call, ok := stripConv(pair[0]).(*ssa.Call); ok && strings.HasPrefix(callName(call), "strings.Index") {
+						return 2
+					}
+				}
+			}
+		}
+	}
+	return 0
+}
+
+func c14Loop(c *Ctx, r *Result, fn *ssa.Function, rtIface *types.Interface) {
+	key := c.FuncKey(fn)
+	// scan positions: loop-header phis that are the text argument of a marker search in the loop
+	var positions []*ssa.Phi
+	seenP := map[*ssa.Phi]bool{}
+	allInstrs(fn, func(in ssa.Instruction) {
+		call, ok := in.(*ssa.Call)
+		if !ok || !markerSearch[callName(call)] || !inLoop(in.Block()) {
+			return
+		}
+		if p, ok := stripConv(call.Call.Args[0]).(*ssa.Phi); ok && isLoopHeaderPhi(p) && !seenP[p] {
+			seenP[p] = true
+			positions = append(positions, p)
+		}
+	})
+	if len(positions) == 0 {
+		r.Undecide("R14d: no scan position (loop-carried text searched for markers) found in %s", key)
+		return
+	}
+	for i, P := range positions {
+		site := fmt.Sprintf("%s#scan-position#%d", key, i)
+		pos := c.Pos(c.InstrPos(P))
+		if P.Pos() == 0 {
+			pos = c.Pos(fn.Pos())
+		}
+		b := P.Block()
+		bad := ""
+		nBack := 0
+		for j, pr := range b.Preds {
+			if !b.Dominates(pr) {
+				continue
+			}
+			nBack++
+			switch suffixRank(P.Edges[j], P, 0) {
+			case 2:
+			case 1:
+				bad = "a path around the loop leaves the scanned text unchanged (the loop does not advance: endless loop on such a literal)"
+			default:
+				bad = "a path around the loop continues with text (" + accessPath(P.Edges[j]) + ") that is not provably a proper suffix of the text scanned so far"
+			}
+		}
+		if bad != "" {
+			r.Instance("R14d", site, pos, "finding", bad, true)
+			r.Report(Finding{Rule: "R14d", Site: site, Pos: pos, Msg: key + ": " + bad})
+		} else {
+			r.Instance("R14d", site, pos, "ok", fmt.Sprintf("on each of the %d back edge(s) the scanned text is replaced by a proper suffix of itself (what follows a found marker)", nBack), true)
+		}
+	}
+	r.Floor("R14d", len(positions), 1)
+
+	// R14e: what an iteration writes to the output depends only on the literal, on constants and
+	// on evaluations made in this iteration — not on anything an earlier iteration left behind
+	isPos := func(v ssa.Value) bool {
+		for _, P := range positions {
+			if v == ssa.Value(P) {
+				return true
+			}
+		}
+		return false
+	}
+	var stale func(v ssa.Value, seen map[ssa.Value]bool, d int) string
+	stale = func(v ssa.Value, seen map[ssa.Value]bool, d int) string {
+		if v == nil || seen[v] || d > 40 {
+			return ""
+		}
+		seen[v] = true
+		switch x := v.(type) {
+		case *ssa.Const, *ssa.Parameter, *ssa.Function, *ssa.Global:
+			return ""
+		case *ssa.Phi:
+			if isPos(x) {
+				return ""
+			}
+			if isLoopHeaderPhi(x) && inLoop(x.Block()) {
+				b := x.Block()
+				for j, pr := range b.Preds {
+					if b.Dominates(pr) {
+						if _, isConst := x.Edges[j].(*ssa.Const); !isConst {
+							return "variable " + x.Comment + " carried over from the previous iteration"
+						}
+					}
+				}
+			}
+			for _, e := range x.Edges {
+				if s := stale(e, seen, d+1); s != "" {
+					return s
+				}
+			}
+		case *ssa.Lookup:
+			if _, isMap := x.X.Type().Underlying().(*types.Map); isMap {
+				if mm, ok := unspill(x.X).(*ssa.MakeMap); !ok || !inLoop(mm.Block()) {
+					return "a lookup in the map " + accessPath(x.X) + " that outlives the iteration"
+				}
+			}
+			if s := stale(x.X, seen, d+1); s != "" {
+				return s
+			}
+			return stale(x.Index, seen, d+1)
+		case *ssa.Extract:
+			return stale(x.Tuple, seen, d+1)
+		case *ssa.Call:
+			if x.Call.IsInvoke() {
+				return "" // an evaluation / error text of this iteration
+			}
+			if f := x.Call.StaticCallee(); f != nil && c.inModule(f) {
+				return "" // parse / evaluation helpers of this iteration
+			}
+			for _, a := range x.Call.Args {
+				if s := stale(a, seen, d+1); s != "" {
+					return s
+				}
+			}
+		case *ssa.UnOp:
+			if x.Op == token.MUL {
+				switch a := x.X.(type) {
+				case *ssa.Alloc:
+					if inLoop(x.Block()) && !inLoop(a.Block()) {
+						// a cell allocated outside the loop and written inside it carries values around the loop
+						for _, ref := range *a.Referrers() {
+							if st, ok := ref.(*ssa.Store); ok && st.Addr == ssa.Value(a) && inLoop(st.Block()) && !dominates(st, x) {
+								return "a variable written in an earlier iteration (" + a.Comment + ")"
+							}
+						}
+					}
+					for _, s := range cellSources(a) {
+						if r := stale(s, seen, d+1); r != "" {
+							return r
+						}
+					}
+					return ""
+				case *ssa.IndexAddr:
+					if s := stale(a.X, seen, d+1); s != "" {
+						return s
+					}
+					return stale(a.Index, seen, d+1)
+				case *ssa.FieldAddr:
+					return "" // fields of the runtime component / node: not written by the loop (R11c)
+				}
+				return ""
+			}
+			return stale(x.X, seen, d+1)
+		case *ssa.BinOp:
+			if s := stale(x.X, seen, d+1); s != "" {
+				return s
+			}
+			return stale(x.Y, seen, d+1)
+		case *ssa.Slice:
+			return stale(x.X, seen, d+1)
+		case *ssa.MakeInterface:
+			return stale(x.X, seen, d+1)
+		case *ssa.ChangeType:
+			return stale(x.X, seen, d+1)
+		case *ssa.Convert:
+			return stale(x.X, seen, d+1)
+		case *ssa.ChangeInterface:
+			return stale(x.X, seen, d+1)
+		case *ssa.TypeAssert:
+			return stale(x.X, seen, d+1)
+		case *ssa.Alloc:
+			// varargs array: its stored elements
+			for _, ref := range *x.Referrers() {
+				if ia, ok := ref.(*ssa.IndexAddr); ok {
+					for _, ref2 := range *ia.Referrers() {
+						if st, ok := ref2.(*ssa.Store); ok && st.Addr == ssa.Value(ia) {
+							if s := stale(st.Val, seen, d+1); s != "" {
+								return s
+							}
+						}
+					}
+				}
+			}
+		}
+		return ""
+	}
+	nOut := 0
+	ord := newOrdinals()
+	allInstrs(fn, func(in ssa.Instruction) {
+		call, ok := in.(*ssa.Call)
+		if !ok || !inLoop(in.Block()) {
+			return
+		}
+		n := callName(call)
+		if !(strings.HasPrefix(n, "bytes.Buffer.Write") || strings.HasPrefix(n, "strings.Builder.Write") || strings.HasPrefix(n, "bytes.*Buffer.Write") || strings.HasPrefix(n, "strings.*Builder.Write")) {
+			return
+		}
+		args := call.Call.Args
+		if len(args) < 2 {
+			return
+		}
+		nOut++
+		site := ord.key(key, "output", n)
+		pos := c.Pos(c.InstrPos(in))
+		if s := stale(args[1], map[ssa.Value]bool{}, 0); s != "" {
+			r.Instance("R14e", site, pos, "finding", "output depends on "+s, true)
+			r.Report(Finding{Rule: "R14e", Site: site, Pos: pos,
+				Msg: key + ": text written to the result inside the scan loop depends on " + s + " — an occurrence of {{expr}} is then not replaced by the value of evaluating it at that position (a repeated expression is evaluated once, a stale value is substituted)"})
+		} else {
+			r.Instance("R14e", site, pos, "ok", "written text derives from the literal, constants and calls made in this iteration only", true)
+		}
+	})
+	r.Floor("R14e", nOut, 2)
 }
